@@ -3,13 +3,15 @@
 from harness import common, gens
 from harness.props import C02, C03
 
-LEVEL_NOTE = ("Theorems for every enzyme (any site word, cut offset, overhang length), every content and every rotation: "
-              "the module and the vector of the formal definition carrying the two sites once each are accepted and "
-              "report exactly their overhangs and target (canonical lemmas, proved for every framed class of the common "
-              "shape); when the overhang graph closes the product is the chain's word, of length the sum of the retained "
-              "fragments; rotations and argument order are irrelevant. The implementation is tied by comparing "
+LEVEL_NOTE = ("END-TO-END theorem for every enzyme (any site word, cut offset, overhang length), any number of module "
+              "plasmids and a vector plasmid of the formal definition carrying the two sites once each, each read from any "
+              "origin and given in any order: if the overhangs chain and the starts are clash-free, assemble_raw (typing of "
+              "every argument, dictionary, walk) returns exactly o5_1.t_1...o5_q.t_q.o_up.backbone, uses every module and "
+              "leaves none; its pieces: canonical acceptance for every framed class, product = chain word of length the "
+              "sum of the retained fragments, rotation and order invariance. The implementation is tied by comparing "
               "vector.assemble with the model end to end from raw sequences for every cutter geometry of Bio.Restriction's "
-              "family, every rotation of one plasmid at a time, shuffled orders, and with the closed formula.")
+              "family, every rotation of one plasmid at a time, shuffled orders, derived classes overriding the cutter, "
+              "neoschizomer classes used first, mirrored overhang sets, and with the closed formula.")
 
 IMPORTS = C02.IMPORTS
 
